@@ -155,6 +155,28 @@ def rtCheck (env : JEnv) (top : Bool) (v : Value) (t : Ty) : Bool :=
     | _ => false
   | _ => false
 
+/-! the bucket id stored with every set member is the one the hash oracle gives for it
+(what `set.Add` establishes; the harness reads both from the same real function) -/
+mutual
+def setsCoherent (env : JEnv) : Ty → Payload → Bool
+  | .set e, .sset ids vs => idsCoherent env e ids vs && setsCoherentAll env e vs
+  | .list e, .seq vs => setsCoherentAll env e vs
+  | .map e, .smap _ vs => setsCoherentAll env e vs
+  | .tuple es, .seq vs => setsCoherentZip env es vs
+  | .object _ ts _, .smap _ vs => setsCoherentZip env ts vs
+  | _, _ => true
+def setsCoherentAll (env : JEnv) : Ty → List Payload → Bool
+  | _, [] => true
+  | e, v :: vs => setsCoherent env e v && setsCoherentAll env e vs
+def setsCoherentZip (env : JEnv) : List Ty → List Payload → Bool
+  | t :: ts, v :: vs => setsCoherent env t v && setsCoherentZip env ts vs
+  | _, _ => true
+def idsCoherent (env : JEnv) : Ty → List Int → List Payload → Bool
+  | e, i :: is, v :: vs => (match env.hkey e v with | some (h, _) => h == i | none => false) && idsCoherent env e is vs
+  | _, [], [] => true
+  | _, _, _ => false
+end
+
 /-! ### "plain decoding mirrors the value's structure": what a plain JSON reader sees in the
 encoder's output for a value against its own placeholder-free type — null for null, the
 same bool / string, the decimal text of the number, an array with one entry per element
